@@ -4,6 +4,7 @@ package exec
 import (
 	"fmt"
 	"math/rand"
+	"runtime"
 	"strings"
 
 	cg "github.com/go-task/task/v3/verifharness/coqgen"
@@ -433,7 +434,25 @@ func (p *Prog) Taskfile() map[string]any {
 			y["internal"] = true
 		}
 		if !t.G.Platform {
-			y["platforms"] = []string{"windows/arm"}
+			// every form excludes the current platform: neither part matches, only the OS matches,
+			// only the architecture matches, a list of such entries
+			otherOS, otherArch := "windows", "arm"
+			if runtime.GOOS == "windows" {
+				otherOS = "linux"
+			}
+			if runtime.GOARCH == "arm" {
+				otherArch = "amd64"
+			}
+			switch i % 4 {
+			case 0:
+				y["platforms"] = []string{otherOS + "/" + otherArch}
+			case 1:
+				y["platforms"] = []string{runtime.GOOS + "/" + otherArch}
+			case 2:
+				y["platforms"] = []string{otherOS + "/" + runtime.GOARCH}
+			default:
+				y["platforms"] = []string{otherOS, runtime.GOOS + "/" + otherArch, otherArch}
+			}
 		}
 		var req []any
 		if !t.G.Required {
@@ -640,6 +659,42 @@ func Directed(r *rand.Rand) *Prog {
 	p.Cfg.Roots = []Call{{Task: 0, Var: intp(r.Intn(3))}}
 	p.Cfg.N = []int{0, 1, 2, 3}[r.Intn(4)]
 	p.Cfg.Yes = r.Intn(4) == 0
+	p.Cfg.MaxCall = 1000
+	return p
+}
+
+// DirectedCyclic: small programs whose cycle is certainly reached and spins until the call limit ends
+// it: through deps, through task: commands, through both, self-reference, two- and three-task
+// cycles, with commands before the recursive reference (so every round prints) and none failing.
+func DirectedCyclic(r *rand.Rand) *Prog {
+	p := &Prog{}
+	back := func(viaDep bool, t int) Task {
+		if viaDep {
+			return tk("always", []Call{{Task: t}}, sh(0))
+		}
+		return tk("always", nil, sh(0), callv(t, nil))
+	}
+	switch r.Intn(6) {
+	case 0: // self-dependency
+		p.Tasks = []Task{tk("always", []Call{{Task: 0}}, sh(0))}
+	case 1: // self-call
+		p.Tasks = []Task{tk("always", nil, sh(0), callv(0, nil), sh(0))}
+	case 2: // a <-> b through deps / commands
+		p.Tasks = []Task{back(r.Intn(2) == 0, 1), back(r.Intn(2) == 0, 0)}
+	case 3: // a -> b -> c -> a
+		p.Tasks = []Task{back(r.Intn(2) == 0, 1), back(r.Intn(2) == 0, 2), back(r.Intn(2) == 0, 0)}
+	case 4: // the cycle sits below an acyclic prefix and next to an innocent sibling
+		p.Tasks = []Task{
+			tk("always", []Call{{Task: 1}, {Task: 3}}, sh(0)),
+			back(r.Intn(2) == 0, 2),
+			back(r.Intn(2) == 0, 1),
+			tk("always", nil, sh(0), sh(0)),
+		}
+	default: // the recursive call passes a constant variable (another value than the root's)
+		p.Tasks = []Task{tk("always", nil, sh(0), callv(1, intp(1))), tk("always", nil, callv(0, intp(2)), sh(0))}
+	}
+	p.Cfg.Roots = []Call{{Task: 0, Var: intp(r.Intn(3))}}
+	p.Cfg.N = []int{0, 1, 2, 3}[r.Intn(4)]
 	p.Cfg.MaxCall = 1000
 	return p
 }
